@@ -9,6 +9,7 @@ SEED="$(cd "$1" && pwd)"; shift
 W=/tmp/seed-confirm
 if [ ! -d "$W" ]; then git -C /repo worktree add -q --detach "$W" HEAD || exit 2; fi
 git -C "$W" checkout -q --detach "$(git -C /repo rev-parse HEAD)" && git -C "$W" reset -q --hard && git -C "$W" clean -qfd -e target
+if [ -z "${SEED_SKIP_CONFIRM:-}" ]; then
 echo "== confirm in $W"
 if [ -f "$SEED/seed_demo.rs" ]; then
   cp "$SEED/seed_demo.rs" "$W/tests/seed_demo.rs"
@@ -20,6 +21,9 @@ if [ -f "$SEED/seed_demo.rs" ]; then
   rm -f "$W/tests/seed_demo.rs"
 fi
 VERIF_REPO="$W" /verif/baseline.sh; echo "baseline with patch: exit $? (expected 0)"
+else
+git -C "$W" apply "$SEED/patch.diff" || { echo "patch does not apply"; exit 2; }
+fi
 echo "== run checks against the patched worktree $W (harness copy in /tmp/seed-harness; /repo is not touched)"
 mkdir -p /tmp/seed-harness
 rsync -a --delete --exclude 'target-*' --exclude target /verif/harness/ /tmp/seed-harness/
